@@ -20,6 +20,10 @@ pub struct VehicleCfg {
     /// physical quantity, converted with the repository's own factor
     #[serde(default)]
     pub battery_unit: Option<String>,
+    /// the ideal (best-case) energy rate is configured instead of being found by a sweep of the model when
+    /// the application is built - the model is then first asked for a prediction by a query
+    #[serde(default)]
+    pub ideal_rate_configured: bool,
 }
 
 #[derive(Clone, Debug, Serialize, Deserialize)]
@@ -582,6 +586,9 @@ impl World {
                             });
                             if let Some(a) = v.adjustment {
                                 m["real_world_energy_adjustment"] = json!(a);
+                            }
+                            if v.ideal_rate_configured {
+                                m["ideal_energy_rate"] = json!(if rate_unit.starts_with("gallons") { 0.02 } else { 0.2 });
                             }
                             if let (Some((size, ps, pg)), false) = (v.cache, reference) {
                                 m["float_cache_policy"] = json!({"cache_size": size, "key_precisions": [ps, pg]});
